@@ -200,6 +200,11 @@ impl EventGen for OtherElement {
         &self,
         context: &mut TransformerContext,
     ) -> Result<(OutputList, Option<BoundingBox>)> {
+        // An <svg> element with an xmlns attribute is passed through as written (see
+        // `Container`) - also when it is an empty-element tag.
+        if self.0.name == "svg" && self.0.get_attr("xmlns").is_some() {
+            return Ok((OutputList::raw(self.0.all_events(context)), None));
+        }
         let mut output = OutputList::new();
         let mut e = self.0.clone();
         e.resolve_position(context)?; // transmute assumes some of this (e.g. dxy -> dx/dy) has been done
